@@ -119,7 +119,9 @@ Lines == 1..Len(sys)
 IsolatedSys == \A k \in Lines : Isolated(Rel(k))
 
 (* "relations whose left-hand variables do not feed one another": distinct *)
-(* left-hand variables, none of which occurs in a right-hand side          *)
+(* left-hand variables, none of which occurs in a right-hand side.         *)
+(* (Several lines on the SAME left-hand variable -- "x_i <= f, x_i != f",  *)
+(* intervals -- need a joint result per variable: LinRelGrp.tla.)          *)
 IndependentRels(s) ==
   \A k, l \in 1..Len(s) : /\ s[k].i \notin UsedVars(s[l])
                           /\ (k # l => s[k].i # s[l].i)
